@@ -1,4 +1,4 @@
-"""C03 - the model is the intrinsic scene convolved with the PSF exactly as supplied  (PARTIAL).
+"""C03 - the model is the intrinsic scene convolved with the PSF exactly as supplied  (PARTIAL: fractional positions).
 
 T: PSF ramps, PSF_fft product, Fourier and pixel point-source code regenerated; Props/C03.v re-proved (ramp = integer-shift
 phase for odd stamps, geometric-centre convention, untransposed pixel point source, DC preservation).
@@ -43,7 +43,12 @@ def run(ck):
         N = 32
         p = {"xc": 16 + rng.uniform(-2, 2), "yc": 16 + rng.uniform(-2, 2), "flux": 50.0, "r_eff": rng.uniform(2, 2.6), "n": rng.uniform(0.8, 2.5), "ellip": rng.uniform(0, 0.5), "theta": rng.uniform(0, 3)}
         cases.append({"mode": "conv", "N": N, "P": rng.choice([3, 5, 7]), "seed": rng.randint(0, 999), "params": p})
-    ck.log("implementation: %d cases (ramp / point / conv)" % len(cases))
+    for N in ([3, 4] if quick else [2, 3, 4, 5, 6]):
+        a = [[float(formlib.dy(rng, -4, 4, 3)) for _ in range(N)] for _ in range(N)]
+        b = [[float(formlib.dy(rng, -4, 4, 3)) for _ in range(N)] for _ in range(N)]
+        cases.append({"mode": "rfft2", "N": N, "P": 0, "a": a, "b": b, "freqs": [[rng.randrange(N), rng.randrange(N // 2 + 1)] for _ in range(2)],
+                      "pixels": [[rng.randrange(N), rng.randrange(N)] for _ in range(2)]})
+    ck.log("implementation: %d cases (ramp / point / conv / rfft2)" % len(cases))
     import concurrent.futures as cf
     nsh = min(6, vlib.NCPU)
     shards = [cases[i::nsh] for i in range(nsh)]
@@ -53,7 +58,7 @@ def run(ck):
     for kk, o in enumerate(outs):
         for j, r in enumerate(o):
             res[kk + j * nsh] = r
-    goals, oracle_bad = [], []
+    goals, goals2, oracle_bad = [], [], []
     worst = {}
     for ci, (c, r) in enumerate(zip(cases, res)):
         ck.bump("mode", c["mode"]); ck.bump("P", c["P"])
@@ -68,6 +73,16 @@ def run(ck):
                 goals.append((ci, "ramp:P=%d" % P, "Goal Rabs (cos (ramp_x_phase %d %s + ramp_y_phase %d %s) - %s) <= 1 / 100000 /\\ Rabs (sin (ramp_x_phase %d %s + ramp_y_phase %d %s) - %s) <= 1 / 100000.\n"
                                                       "Proof. unfold ramp_x_phase, ramp_y_phase. split; interval with (i_prec 60). Qed."
                               % (P, q(fxh), P, q(fyh), q(reh), P, q(fxh), P, q(fyh), q(imh))))
+        if c["mode"] == "rfft2":
+            N = c["N"]
+            ta = "[" + "; ".join("[" + "; ".join(q(float(v).hex()) for v in row) + "]" for row in c["a"]) + "]"
+            tb = "[" + "; ".join("[" + "; ".join(q(float(v).hex()) for v in row) + "]" for row in c["b"]) + "]"
+            for (ky, kx, reh, imh) in r["freqs"]:
+                goals2.append((ci, "rfft2:N=%d" % N, "Goal Rabs (Re (dft2 %d (rtab %s) %d %d) - %s) <= 1 / 1000 /\\ Rabs (Im (dft2 %d (rtab %s) %d %d) - %s) <= 1 / 1000.\n"
+                                                      "Proof. split; d2_eval; interval with (i_prec 60). Qed." % (N, ta, ky, kx, q(reh), N, ta, ky, kx, q(imh))))
+            for (rr, cc, h) in r["pixels"]:
+                goals2.append((ci, "fftconv:N=%d" % N, "Goal Rabs (Re (circ_conv2 %d (rtab %s) (rtab %s) %d %d) - %s) <= 1 / 1000.\nProof. d2_eval; interval with (i_prec 60). Qed."
+                               % (N, ta, tb, rr, cc, q(h))))
     ck.extra["worst_deviation_fraction_of_peak"] = worst
     ck.rule = ("ramp: N=8..16, P=1..7 odd and even, random frequencies; point: asymmetric off-centre-peaked stamps P=1..5 on N=8..16 frames, integer and fractional positions inside the frame, "
                "three renderers; conv: sersic sources vs circular spatial convolution of the renderer's own intrinsic image, unit PSF")
@@ -84,23 +99,42 @@ def run(ck):
             failing = losslib.run_goals(ck, goals, "c03", shard=10)
         finally:
             losslib.HDR = old
-        ck.extra["coq_goals"] = len(goals)
+        with vlib.Lock():
+            vlib.coq_make(["Base/Dft2.vo"])
+        losslib.HDR = ("From Coq Require Import Reals List Lia.\nFrom Coquelicot Require Import Coquelicot.\nFrom Interval Require Import Tactic.\n"
+                       "From PS Require Import Base.RBase Base.Dft Base.Dft2.\nImport ListNotations.\nOpen Scope R_scope.\n"
+                       "Definition rtab (t : list (list R)) (y x : nat) : C := RtoC (nth x (nth y t []) 0).\n"
+                       "Ltac d2_eval :=\n  unfold dft2, dft, circ_conv2, wN;\n  cbn [csum];\n"
+                       "  repeat match goal with |- context [Nat.modulo ?a ?b] => let v := eval vm_compute in (Nat.modulo a b) in change (Nat.modulo a b) with v end;\n"
+                       "  rewrite ?Cpow_cis; unfold rtab; cbn [nth];\n"
+                       "  unfold cis, Cmult, Cplus, RtoC, Re, Im; cbn [fst snd Nat.mul Nat.add Nat.sub INR].\n")
+        try:
+            failing2 = losslib.run_goals(ck, goals2, "c03d", shard=4)
+        finally:
+            losslib.HDR = old
+        failing = failing + failing2
+        ck.extra["coq_goals"] = len(goals) + len(goals2)
         ck.cmds.append("coqc -Q coq PS coq/Cases/<run>/c03_NNN.v  (%d interval goals)" % len(goals))
         if failing:
             ok = False
             detail = "; ".join("%s: %s" % (f[1], f[2].replace("\n", " ")[:140]) for f in failing[:3])
-    ck.oblige("correspondence:PSF_fft / rfft2(psf) of real renderers == exp(i (ramp_x_phase + ramp_y_phase)) (interval)", "correspondence", ok, detail)
+    ck.oblige("correspondence:PSF_fft / rfft2(psf) of real renderers == exp(i (ramp_x_phase + ramp_y_phase)); jnp.fft.rfft2 == dft2 model; irfft2(rfft2 a * rfft2 b) == circ_conv2 model (interval)", "correspondence", ok, detail)
     ck.oblige("oracle:point sources == embedded stamps (2e-5), fractional centroids (0.02 px), extended sources == spatial convolution of the intrinsic image, unit PSF identity", "correspondence",
               not oracle_bad, json.dumps(oracle_bad[0][1]["oracle"][:2]) if oracle_bad else "")
     ck.samples += cases[:2] + [c for c in cases if c["mode"] == "point"][:3]
     ck.trusted += ["Coq 8.16.1 kernel; Coquelicot; Interval; Reals axioms + classic",
                    "translator unit Ramps (phase ramps, PSF_fft product, pixel point-source offsets and coordinate order)",
-                   "NOT proved: the convolution theorem irfft2(rfft2 a * rfft2 b) = a (*) b for the half-plane transform and the bilinear (order=1) resampling at fractional positions; "
-                   "both are exercised by the implementation-side oracle (and the irfft2 model numerically under C01)",
+                   "hand models of jnp.fft.rfft2 (dft2) and jnp.fft.irfft2 (Base/Dft.v, Base/Dft2.v), tied to jnp.fft by the interval correspondence on random small arrays",
+                   "NOT proved: the bilinear (order=1) resampling at fractional positions and the band-limited shift of the Fourier point source at fractional positions; the zero-padding of the "
+                   "PSF stamp to the frame (rfft2(psf, s=shape)) is modelled as an array that is zero outside the stamp; all exercised by the implementation-side oracle",
                    "jax.scipy.ndimage.map_coordinates(order=1, mode='constant') returns the array entry at integer coordinates (modelled, exercised by the point-source oracle)"]
     ck.explanation = ("Proved: both ramps are exp(+2 pi i ((P-1)/2) f) with pi itself - the geometric-centre convention; for odd stamps this is exactly the root-of-unity phase w^(c k) of an integer "
                       "circular shift by c=(P-1)/2 (half-pixel phase for even stamps); the Fourier point source is flux times the conjugate root-of-unity phase of a delta at (column xc, row yc); the "
-                      "pixel renderer reads psf[r-yc+a][c-xc+b] (rows to rows, columns to columns, centre entry on the source pixel); FFT convolution preserves the total up to sum(psf).")
+                      "pixel renderer reads psf[r-yc+a][c-xc+b] (rows to rows, columns to columns, centre entry on the source pixel); FFT convolution preserves the total up to sum(psf); for every N>=1 and all real N x N arrays a, b: the 2-D transform of a circular convolution is the "
+                      "product of the transforms, irfft2 inverts the half-plane transform of a real image (Hermitian symmetry proved), hence irfft2(rfft2 a * rfft2 b) = a (*) b pixel by pixel; a unit "
+                      "impulse at (py, px) translates the other array there, rows to rows and columns to columns.  Whole chain, with the ramps regenerated from the source (odd stamp 2c+1, zero-padded): "
+                      "irfft2(rfft2(scene) * rfft2(psf) * ramp_y * ramp_x)[r, col] = sum_{y,x} scene[y,x] * psf[r-y+c][col-x+c] (circular), and a unit point on pixel (py, px) renders as "
+                      "psf[r-py+c][col-px+c]: the stamp centred on its geometric centre entry; the negative-frequency half of fftfreq gives the same ramp values.")
     if ck.broken():
         if oracle_bad:
             c, r = oracle_bad[0]
